@@ -682,6 +682,16 @@ func (c *compiler) PointerNode(node *ast.PointerNode) {
 }
 
 func (c *compiler) ConditionalNode(node *ast.ConditionalNode) {
+	if node.Cond == node.Exp1 {
+		// `a ?: b`: a is evaluated once and, if true, is the result.
+		c.compile(node.Cond)
+		end := c.emit(OpJumpIfTrue, c.placeholder()...)
+		c.emit(OpPop)
+		c.compile(node.Exp2)
+		c.patchJump(end)
+		return
+	}
+
 	c.compile(node.Cond)
 	otherwise := c.emit(OpJumpIfFalse, c.placeholder()...)
 
